@@ -5,7 +5,7 @@ F = "lmbr"
 TB = "rustc front end, kani-compiler MIR->goto translation, CBMC 6.11 + cadical; "
 PROP = {
     "manifest": dict(
-        text="B1 the real LowMarkBufReader::{fill_buf,consume,read,seek} as inductive steps from an ARBITRARY reader state (pos <= cap <= capacity; cache line scaled to 8; (low mark, capacity) instances (1,9), (4,15), (8,16), (20,32) - below, at and above the cache line; source up to 3 cache "
+        text="B1 the real LowMarkBufReader::{fill_buf,consume,read,seek} as inductive steps from an ARBITRARY reader state (pos <= cap <= capacity; cache line scaled to 8; (low mark, capacity) instances (1,9), (4,15), (8,16), (10,18) - below, at and above the cache line; source up to 3 cache "
              "lines) over a scripted source whose every read returns a solver-chosen count (all short-read schedules): bytes handed out are exactly the source's (ghost watch cell), position advances by exactly the amount "
              "consumed, >= low-mark bytes available or source exhausted, the source is never read into an empty slice (no early EOF). Because the start state is arbitrary, every interleaving of fill/consume/read/seek is covered. "
              "B2 both parsers give the same verdict on two views of any buffer that both contain the first frame + 4 bytes. B3 the low mark passed at the call sites covers the largest message + 4. "
@@ -15,21 +15,21 @@ PROP = {
     "inject": [("src/utils/lowmarkbufreader.rs", "lmbr.rs"), ("src/dlt/mod.rs", "dlt_frame.rs"), ("src/dlt/mod.rs", "lowmark_sites.rs")],
     "cuts": [scale_cache_line, extract_low_mark_sites],
     "functions": ["utils::LowMarkBufReader::{new,fill_buf,consume,read,seek,buffer}", "dlt::parse_dlt_with_storage_header", "dlt::parse_dlt_with_serial_header"],
-    "bounds": "cache line 8 (scaled), (low mark, capacity) in {(1,9),(4,15),(8,16),(20,32)}, source <= capacity + 16 B, one operation per step from an arbitrary state; parser views: buffers <= 36 B",
+    "bounds": "cache line 8 (scaled), (low mark, capacity) in {(1,9),(4,15),(8,16),(10,18)}, source <= capacity + 16 B, one operation per step from an arbitrary state; parser views: buffers <= 36 B",
     "stubs": ["alloc::fmt::format -> String::new()"],
     "outside": ["the real cache-line value 4096 (beyond CBMC: > 30 GB)", "SeekFrom::End", "I/O errors from the source", "composition of B1+B2+B3 with C01-L3 over a whole stream (paper)"],
     "assumptions": ["the source honours the Read contract: returns 0 only at its end or for an empty destination"],
     "instances": [
         inst(F, "c04_b1_fill_lm4_x3", Q, "low mark 4, capacity 15; any state, any read schedule", "B1a fill_buf: nothing lost/duplicated, low mark kept, no early EOF", covers=3, timeout=2400, cost=100),
         inst(F, "c04_b1_fill_lm1_x0", Q, "low mark 1, capacity 9 (minimal admissible)", "B1a fill_buf", covers=3, timeout=2400, cost=100),
-        inst(F, "c04_b1_fill_lm20_x4", Q, "low mark 20 > cache line, capacity 32 (the production proportion)", "B1a fill_buf", covers=3, timeout=2400, cost=150),
+        inst(F, "c04_b1_fill_lm10_x0", Q, "low mark 10 > cache line 8, capacity 18 (the production proportion: low mark above the cache line)", "B1a fill_buf", covers=3, timeout=2400, cost=150),
         inst(F, "c04_b1_fill_lm8_x0", T, "low mark 8 == cache line, capacity 16", "B1a fill_buf", covers=3, timeout=3000, cost=100),
         inst(F, "c04_b1_consume_lm4_x3", Q, "low mark 4, capacity 15; any state, any n", "B1b consume + fill_buf", covers=2, timeout=2400, cost=100),
-        inst(F, "c04_b1_consume_lm20_x4", T, "low mark 20, capacity 32", "B1b consume + fill_buf", covers=2, timeout=3000, cost=150),
+        inst(F, "c04_b1_consume_lm10_x0", T, "low mark 10, capacity 18", "B1b consume + fill_buf", covers=2, timeout=3000, cost=150),
         inst(F, "c04_b1_read_lm4_x3", Q, "low mark 4, capacity 15; read(n <= 6)", "B1c read: next bytes, exact advance, 0 only at end", covers=2, timeout=2400, cost=100),
-        inst(F, "c04_b1_read_lm20_x4", T, "low mark 20, capacity 32; read(n <= 6)", "B1c read", covers=2, timeout=3000, cost=150),
+        inst(F, "c04_b1_read_lm10_x0", T, "low mark 10, capacity 18; read(n <= 6)", "B1c read", covers=2, timeout=3000, cost=150),
         inst(F, "c04_b1_seek_lm4_x3", Q, "low mark 4, capacity 15; seek(Start|Current) to any target", "B1d in-window seek exact; out-of-window refused, state intact", covers=2, timeout=2400, cost=100),
-        inst(F, "c04_b1_seek_lm20_x4", T, "low mark 20, capacity 32", "B1d seek", covers=2, timeout=3000, cost=150),
+        inst(F, "c04_b1_seek_lm10_x0", T, "low mark 10, capacity 18", "B1d seek", covers=2, timeout=3000, cost=150),
         inst("dlt_frame", "c04_b2_view_serial_26", Q, "any 26 B buffer starting with the marker, two views >= frame + 4", "B2 view independence (serial parser)", covers=2, timeout=2400, mem_gb=24),
         inst("dlt_frame", "c04_b2_view_storage_36", T, "any 36 B buffer starting with the marker, two views >= frame + 4", "B2 view independence (storage parser)", covers=2, timeout=3300, mem_gb=24),
         inst("lowmark_sites", "c04_b3_low_mark_covers_lookahead", Q, "call sites in convert.rs and remote.rs", "B3 low mark >= largest message + 4", covers=1),
